@@ -208,8 +208,15 @@ func (cw *ccWorld) msRandBegin(c *Ctx, ch string, ids []string, wellFormed bool)
 		b.tok = own
 	case r < 82:
 		b.tok = other // reverse
-	case r < 87 && !wellFormed:
+	case r < 85 && !wellFormed:
 		b.tok = "XX"
+	case r < 89 && !wellFormed:
+		// a token or a destination spelled in another letter case is another name: no such swap
+		if rng.Intn(2) == 0 {
+			b.tok = strings.ToLower([]string{own, other}[rng.Intn(2)])
+		} else {
+			b.tok, b.to = other, strings.ToLower(own)
+		}
 	default:
 		b.tok = own
 		if !wellFormed {
@@ -224,6 +231,10 @@ func (cw *ccWorld) msRandBegin(c *Ctx, ch string, ids []string, wellFormed bool)
 	}
 	for i := 0; i < n; i++ {
 		a := msAsset{group: b.tok + "_" + []string{"G1", "G2"}[rng.Intn(2)], amt: int64(rng.Intn(160))}
+		if b.tok == own && !wellFormed && rng.Intn(5) == 0 {
+			// a ticker with a second separator: the group of a token balance is what follows the LAST one
+			a.group = b.tok + "_X_" + []string{"G1", "G2"}[rng.Intn(2)]
+		}
 		if i > 0 && rng.Intn(3) == 0 {
 			a.group = b.assets[0].group // the same group listed twice
 		}
